@@ -13,7 +13,8 @@ for d in sorted(glob.glob(os.path.join(ROOT, 'seeded', '*'))):
     runs = [x for ev in evs for x in ev['ran']]
     first = runs[0] if runs else None
     last_caught = [x for x in runs if x['caught']]
-    now = last_caught[-1] if last_caught else None
+    own = [x for x in last_caught if x['check'] == os.path.basename(d).split('-')[0]]
+    now = (own or last_caught)[-1] if last_caught else None
     files = ', '.join(os.path.basename(f) for f in m.get('files', []))
     print('| %s | %s | %s | %s | %s | %s |' % (
         os.path.basename(d), files, short(m.get('summary', ''), 170).replace('|', '/'),
